@@ -258,36 +258,47 @@ def closeTail (cfg : Cfg) (s : St) (t : Tid) (c : Cont) : St :=
 def suspendOn (s : St) (t x : Tid) (pc : Nat) (c : Cont) : St :=
   { ((s.cancelTask x).setStatus t (.waitT x)).setProg t .inClose with cstage := .body t (pc + 1) c }
 
-/-- run the close body from `pc` until the next suspension (fuel = number of stages left) -/
-def execClose (cfg : Cfg) (s : St) (t : Tid) (c : Cont) : Nat → Nat → St
-  | 0, _ => s
-  | fuel + 1, pc =>
-    match stopTarget pc with
-    | some x =>
-      if pc = 4 && s.rStopped then execClose cfg s t c fuel 6        -- `Reader.stop`: already stopped
-      else if x = t || !(alive (s.status x)) then
-        -- `stop_task`: None / finished / the current task: nothing to wait for
-        let s := if pc = 0 then { s with dispSet := false } else s
-        let s := if pc = 4 then { s with rStopped := true } else s   -- nested on_close → close(): guard; `_stopped = True`
-        execClose cfg s t c fuel (if pc = 4 then 6 else pc + 1)
-      else suspendOn s t x pc c                                      -- cancel it and await it
-    | none =>
-      if pc = 5 then
-        -- resumed after awaiting the reader task
-        execClose cfg { s with rStopped := true } t c fuel 6
-      else closeTail cfg s t c
+/-- one stop-stage of the close body: `stop_task(x)` — nothing to wait for if `x` is the current task, was never
+    started or has finished; otherwise cancel it and suspend until it ends (the body resumes at stage `j + 1`) -/
+def stopStage (s : St) (t : Tid) (c : Cont) (j : Nat) (x : Tid) (next : St → St) : St :=
+  if x = t || !(alive (s.status x)) then next s else suspendOn s t x j c
+
+/-! the stages of the close body, last first -/
+def ec6 (cfg : Cfg) (t : Tid) (c : Cont) (s : St) : St := closeTail cfg s t c
+/-- resumed after awaiting the reader task: nested on_close → close(): guard; `_stopped = True` -/
+def ec5 (cfg : Cfg) (t : Tid) (c : Cont) (s : St) : St := ec6 cfg t c { s with rStopped := true }
+/-- `Reader.stop()` -/
+def ec4 (cfg : Cfg) (t : Tid) (c : Cont) (s : St) : St :=
+  if s.rStopped then ec6 cfg t c s else stopStage s t c 4 .R (ec5 cfg t c)
+def ec3 (cfg : Cfg) (t : Tid) (c : Cont) (s : St) : St := stopStage s t c 3 .M (ec4 cfg t c)
+def ec2 (cfg : Cfg) (t : Tid) (c : Cont) (s : St) : St := stopStage s t c 2 .L (ec3 cfg t c)
+def ec1 (cfg : Cfg) (t : Tid) (c : Cont) (s : St) : St := stopStage s t c 1 .V (ec2 cfg t c)
+/-- `queue.stop()`: the dispatcher first; `_dispatcher_task = None` once it has ended -/
+def ec0 (cfg : Cfg) (t : Tid) (c : Cont) (s : St) : St :=
+  stopStage s t c 0 .D (fun s => ec1 cfg t c { s with dispSet := false })
+
+/-- run the close body from stage `pc` until the next suspension -/
+def execClose (cfg : Cfg) (s : St) (t : Tid) (c : Cont) (pc : Nat) : St :=
+  match pc with
+  | 0 => ec0 cfg t c s
+  | 1 => ec1 cfg t c s
+  | 2 => ec2 cfg t c s
+  | 3 => ec3 cfg t c s
+  | 4 => ec4 cfg t c s
+  | 5 => ec5 cfg t c s
+  | _ => ec6 cfg t c s
 
 /-- resuming the close body at stage `pc` after the awaited task finished: stage bookkeeping, then go on -/
 def resumeClose (cfg : Cfg) (s : St) (t : Tid) (pc : Nat) (c : Cont) : St :=
   let s := if pc = 1 then { s with dispSet := false } else s
-  execClose cfg s t c 8 pc
+  execClose cfg s t c pc
 
 /-- `await self.close()` called by task `t` -/
 def enterClose (cfg : Cfg) (s : St) (t : Tid) (c : Cont) : St :=
   if s.closed then runCont s t c
   else
     -- `_closed = True`; `queue.stop()` sets the queue's own flag in the same atomic step
-    execClose cfg { s with closed := true, qClosed := true, cstage := .body t 0 c } t c 8 0
+    execClose cfg { s with closed := true, qClosed := true, cstage := .body t 0 c } t c 0
 
 /-- task `t`, whose program is `inClose`, runs (`cancelledNow`: a user cancelled it meanwhile) -/
 def stepInClose (cfg : Cfg) (s : St) (t : Tid) (cancelledNow : Bool) : St :=
